@@ -447,7 +447,7 @@ type binStats struct {
 	completed                       bool
 	discard                         string
 	online                          bool
-	mirrorChecked, mirrorMismatch   bool
+	canonJSON                       string
 }
 
 func (b binStats) nontrivial() bool {
@@ -523,6 +523,7 @@ func checkBinary(c Case, bin string, race bool) (st binStats, err error) {
 		}
 	} else {
 		st.completed = true
+		st.canonJSON = canon.JSONRaw
 		st.reports = len(canon.Reports)
 		files := map[string]bool{}
 		tie := map[string]int{}
@@ -576,6 +577,29 @@ func checkBinary(c Case, bin string, race bool) (st binStats, err error) {
 		}
 	}
 	return st, nil
+}
+
+// mirrorJSON renders the input through the in-process pipeline of layer 1 (serial
+// order) with paths made relative, for the cross-check against the binary's --json.
+func mirrorJSON(c Case) (string, error) {
+	dir, err := c05.MkScratch("vc11m-")
+	if err != nil {
+		return "", err
+	}
+	defer os.RemoveAll(dir)
+	raw, _, err := collectRaw(dir, c.Input, c.Offline)
+	if err != nil {
+		return "", err
+	}
+	ident := make([]int, len(raw))
+	for i := range ident {
+		ident[i] = i
+	}
+	out := pipeline(raw, ident)
+	if out.Err != "" {
+		return "", errors.New(out.Err)
+	}
+	return strings.ReplaceAll(out.JSON, dir+"/", ""), nil
 }
 
 func tailOf(s string, n int) string {
@@ -792,6 +816,16 @@ func driveBinary(t *testing.T, layer string, binEnv string, race bool) {
 		}
 		if !st.completed && err == nil {
 			rec.Count("discarded_inputs", 1)
+		}
+		if layer == "workers" && st.completed && !st.online && err == nil {
+			// does layer 1's in-process mirror see what the binary sees? (evidence only)
+			if mj, merr := mirrorJSON(c); merr == nil {
+				rec.Count("mirror_crosschecked_inputs", 1)
+				if mj != st.canonJSON {
+					rec.Count("mirror_disagrees_with_binary", 1)
+					t.Logf("in-process mirror and binary --json disagree, first difference at %s", firstDiff(mj, st.canonJSON))
+				}
+			}
 		}
 		for i := 0; i < max(1, st.runs); i++ {
 			rec.Case(st.class(layer), st.nontrivial(), c.Input.Key(), func() any {
